@@ -574,7 +574,30 @@ def _make_cache(col, rule="C07.R5"):
             f"{len(rets)} return statements", note=len(rets) != 1)
 
 
+def _derived_tables_parse_alike(col, rule="C07.R3"):
+    """a table derived from this one (rows[...], cols[...], -t, copies) splits `name::count<<k` with this table's separators"""
+    from .c14 import _ctor_calls, ctor_kwargs
+    repo = col.repo
+    n = 0
+    for meth in ("_select", "_select_rows", "_select_cols", "_copy"):
+        sx = tctx(repo, meth)
+        for ev, a in _ctor_calls(sx):
+            kw = ctor_kwargs(repo, a)
+            n += 1
+            bad = [f"{k}={S.show(kw[k], False)}" for k in ("sep_count", "sep_previous", "sep_next") if k in kw and kw[k] != S.sattr("_" + k)]
+            missing = [k for k in ("sep_count", "sep_previous", "sep_next") if k not in kw]
+            if missing and "**" in kw:
+                raise AnalysisError(f"Table.{meth}: the separators handed to the derived table are not visible (cannot decide)")
+            col.add(rule, f"Table.{meth}#derived-table-keeps-the-separators", not bad and not missing, sx.loc(ev),
+                    "the derived table receives sep_count / sep_previous / sep_next of its source, each under its own parameter",
+                    "; ".join(bad + [f"{k} left at its default" for k in missing]))
+    if n == 0:
+        raise AnalysisError("Table._select*/_copy: no constructor call of the derived table found (cannot decide)")
+
+
 def check(col: Collector):
+    with col.rule():
+        _derived_tables_parse_alike(col)
     with col.rule():
         _invalidate_on_write(col)
     with col.rule():
